@@ -16,6 +16,9 @@ pub struct Failure {
     pub detail: String,
     /// stable signature used to match `known:` lines of known_findings.txt
     pub signature: String,
+    /// optional structured data identifying the failing input inside a larger sweep
+    #[serde(default)]
+    pub data: Value,
 }
 
 impl Failure {
@@ -25,7 +28,12 @@ impl Failure {
             step,
             detail,
             signature: rule.to_string(),
+            data: Value::Null,
         }
+    }
+    pub fn with(mut self, v: Value) -> Self {
+        self.data = v;
+        self
     }
     pub fn sig(mut self, s: &str) -> Self {
         self.signature = s.to_string();
